@@ -29,11 +29,30 @@ def gates(tier):
             'restriction:blacklist': 100, 'restriction:blacklist:user_override': 15, 'restriction:whitelist': 150, 'restriction:whitelist_none': 100,
             'restriction:required': 100, 'restriction:forbidden': 150, 'restriction:instructor_var': 150,
             'restriction:numbered': 100, 'restriction:suffix': 80, 'restriction:name': 150,
-            'restriction:sibling': 60, 'restriction:sibling_via_sampler': 60, 'aborted_parse_before_cheat': 30, 'restriction:sum_blacklist': 80, 'partial_credit_cheats': 200, 'restriction_combinations': 400}
+            'restriction:sibling': 60, 'restriction:sibling_via_sampler': 60, 'aborted_parse_before_cheat': 30, 'restriction:sum_blacklist': 80, 'partial_credit_cheats': 200, 'restriction_combinations': 400, 'restricted_grader_as_subgrader': 300}
 
 
 def credited(out):
-    return out.returned and out.value['grade_decimal'] > 0
+    if not out.returned:
+        return False
+    if 'input_list' in out.value:
+        return out.value['input_list'][0]['grade_decimal'] > 0      # (wrapped in a list: the first box holds the formula under test)
+    return out.value['grade_decimal'] > 0
+
+
+def wrapped(ctx, rng, answers, twin, restricted, formula):
+    """The same two graders used as SUBGRADERS of a list: a restriction binds there exactly as it does stand-alone.
+    Returns (twin', restricted', call) or None."""
+    from mitxgraders import SingleListGrader, ListGrader
+    if ';' in formula:
+        return None
+    kind = rng.choice(['singlelist', 'list_ordered', 'list_unordered'])
+    ctx.count('restricted_grader_as_subgrader')
+    if kind == 'singlelist':
+        mk = lambda g: SingleListGrader(answers=[answers, '7'], subgrader=g, delimiter=';', ordered=True)
+        return mk(twin), mk(restricted), (lambda g: lib.call(ctx, g, None, formula + ' ; 7'))
+    mk = lambda g: ListGrader(answers=[answers, '7'], subgraders=g, ordered=(kind == 'list_ordered'))
+    return mk(twin), mk(restricted), (lambda g: lib.call(ctx, g, None, [formula, '7']))
 
 
 def judge_cheat(ctx, restriction, twin, restricted, formula, allowed_errors, wit, call=None):
@@ -48,14 +67,14 @@ def judge_cheat(ctx, restriction, twin, restricted, formula, allowed_errors, wit
         return
     ctx.count('cheats_twin_credited')
     ctx.count('restriction:' + restriction)
-    if t.value['ok'] == 'partial':
+    if t.value.get('ok') == 'partial' or ('input_list' in t.value and t.value['input_list'][0]['ok'] == 'partial'):
         ctx.count('partial_credit_cheats')
     r = call(restricted)
     ctx.ev()
     wit = dict(wit, formula=formula, twin=t.brief(), restricted=r.brief())
     ctx.nontrivial([restriction, formula, wit.get('grader')])
     if r.returned:
-        if r.value['grade_decimal'] > 0:
+        if credited(r):
             ctx.violation('C09:%s:bypass_credited' % restriction, 'cheat earned %r' % (r.value,), wit)
         else:
             ctx.violation('C09:%s:graded_wrong_instead_of_refused' % restriction,
@@ -134,7 +153,11 @@ def run_functions(ctx):
         formula = tpl.format(A=target, R=R)
         wit = {'grader': cls_name, 'restriction': kind, 'restricted_function': bad, 'answers': [ans, '2*(%s)' % ans],
                'blacklisted_name_overridden_by_user_function': override}
-        judge_cheat(ctx, kind + (':user_override' if override else ''), twin, restricted, formula, ('InvalidInput',), wit)
+        w_ = wrapped(ctx, rng, answers, twin, restricted, formula) if (i % 4 == 3 and not numeric) else None
+        if w_:
+            judge_cheat(ctx, kind + (':user_override' if override else ''), w_[0], w_[1], formula, ('InvalidInput',), dict(wit, used_as='subgrader of a list'), call=w_[2])
+        else:
+            judge_cheat(ctx, kind + (':user_override' if override else ''), twin, restricted, formula, ('InvalidInput',), wit)
         # user functions and constants stay usable under every function restriction
         if i % 5 == 0:
             # an honest formula using only permitted things: numeric value of the answer via identities
@@ -185,7 +208,11 @@ def run_required(ctx):
             ctx.count('aborted_parse_before_cheat' if not d.returned else 'deep_submission_graded')
             formula = '%s+0*%d' % (formula, 1000 + i * ctx.nshards + ctx.shard)
             wit['history'] = 'deeply nested submission containing %s first (%s)' % (req, d.brief() if d.returned else type(d.exc).__name__)
-        judge_cheat(ctx, 'required', twin, restricted, formula, ('InvalidInput',), wit)
+        w_ = wrapped(ctx, rng, answers, twin, restricted, formula) if (i % 4 == 1 and cls_name != 'NumericalGrader') else None
+        if w_:
+            judge_cheat(ctx, 'required', w_[0], w_[1], formula, ('InvalidInput',), dict(wit, used_as='subgrader of a list'), call=w_[2])
+        else:
+            judge_cheat(ctx, 'required', twin, restricted, formula, ('InvalidInput',), wit)
         if i % 4 == 0:
             judge_honest(ctx, 'required', restricted, '%s(%s)' % (scale, ans), wit)
 
